@@ -85,7 +85,8 @@ def altHostsKube (hostname : String) (port : Nat) (proxyDomain : String) : List 
       if ns + 1 >= h.length || ns + 1 > ih then [] else
       let name := mk (h.take ns)
       let nameNs := mk (h.take ih)
-      if mk ((h.take ih).drop (ns + 1)) == before then
+      -- a wildcard service name has no short form (/repo a8f0821): a bare "*" would collide with the catch-all
+      if mk ((h.take ih).drop (ns + 1)) == before && name != "*" then
         if port == 0 then [name, nameNs ++ ".svc", nameNs]
         else [name, domainName name port, nameNs ++ ".svc", domainName (nameNs ++ ".svc") port, nameNs, domainName nameNs port]
       else
@@ -103,6 +104,7 @@ def altHosts (hostname : String) (isIP : Bool) (port : Nat) (proxyDomain : Strin
     if us.2.isEmpty then v0 else
     if us.1.isEmpty then v0 else      -- F-C12-3 fix: hostname is the proxy domain or a parent of it
     let uniq := ".".intercalate us.1
+    if uniq == "*" then v0 else       -- /repo a8f0821: a wildcard directly below the shared domain
     let v1 := appendDomainPort v0 uniq port
     if us.1.length == 2 then appendDomainPort v1 (uniq ++ "." ++ us.2.headD "") port else v1
 
